@@ -33,7 +33,13 @@ func main() {
 	mck.Main(spaces)
 }
 
-var tmpDir = func() string {
+var tmpDirOnce string
+
+// tmpDir is created lazily (under VERIF_TMP, which the orchestrator removes after the run)
+func tmpDirGet() string {
+	if tmpDirOnce != "" {
+		return tmpDirOnce
+	}
 	d := os.Getenv("VERIF_TMP")
 	if d == "" {
 		d = os.TempDir()
@@ -42,8 +48,9 @@ var tmpDir = func() string {
 	if err != nil {
 		panic(err)
 	}
+	tmpDirOnce = p
 	return p
-}()
+}
 
 type env struct {
 	v9   bool
@@ -259,7 +266,7 @@ func proto(v9 bool) string {
 }
 
 func wfile(name string, b []byte) string {
-	p := filepath.Join(tmpDir, name)
+	p := filepath.Join(tmpDirGet(), name)
 	if err := os.WriteFile(p, b, 0644); err != nil {
 		panic(err)
 	}
@@ -328,7 +335,7 @@ func roundtrip(v9 bool, tier string) mck.Space {
 		}
 		c.SetCase(what)
 		live := e.build(ct)
-		p := filepath.Join(tmpDir, "rt.json")
+		p := filepath.Join(tmpDirGet(), "rt.json")
 		if err := e.dump(live, p); err != nil {
 			c.Violation(proto(v9)+":roundtrip:dump-error", err.Error(), what())
 			return
@@ -352,7 +359,7 @@ func roundtrip(v9 bool, tier string) mck.Space {
 			}
 		}
 		// second generation: dump the loaded cache again, must be identical content
-		p2 := filepath.Join(tmpDir, "rt2.json")
+		p2 := filepath.Join(tmpDirGet(), "rt2.json")
 		e.dump(loaded, p2)
 		c2, _ := e.entries(e.load(p2))
 		if strings.Join(c2, "\n") != strings.Join(a, "\n") {
@@ -414,11 +421,11 @@ func crashImages(v9 bool, tier string) mck.Space {
 	var cum []uint64
 	total := uint64(0)
 	for i, ct := range cs {
-		p := filepath.Join(tmpDir, fmt.Sprintf("new%d.json", i))
+		p := filepath.Join(tmpDirGet(), fmt.Sprintf("new%d.json", i))
 		e.dump(e.build(ct), p)
 		neu, _ := os.ReadFile(p)
 		// the old generation: the previous content (a different, smaller cache)
-		po := filepath.Join(tmpDir, fmt.Sprintf("old%d.json", i))
+		po := filepath.Join(tmpDirGet(), fmt.Sprintf("old%d.json", i))
 		e.dump(e.build(cs[(i+len(cs)-1)%len(cs)]), po)
 		old, _ := os.ReadFile(po)
 		var imgs []image
@@ -502,7 +509,7 @@ func byteCorrupt(v9 bool, tier string) mck.Space {
 	total := uint64(0)
 	per := len(substVals) + 2
 	for i, ct := range cs {
-		p := filepath.Join(tmpDir, fmt.Sprintf("b%d.json", i))
+		p := filepath.Join(tmpDirGet(), fmt.Sprintf("b%d.json", i))
 		e.dump(e.build(ct), p)
 		b, _ := os.ReadFile(p)
 		files = append(files, b)
@@ -636,13 +643,13 @@ func structural(v9 bool, tier string) mck.Space {
 		sig := proto(v9) + ":structure"
 		switch name {
 		case "absent-file":
-			lc := e.load(filepath.Join(tmpDir, "does-not-exist"))
+			lc := e.load(filepath.Join(tmpDirGet(), "does-not-exist"))
 			if m := e.usable(lc); m != "" {
 				c.Violation(sig+":unusable", m, what())
 			}
 			return
 		case "directory":
-			lc := e.load(tmpDir)
+			lc := e.load(tmpDirGet())
 			if m := e.usable(lc); m != "" {
 				c.Violation(sig+":unusable", m, what())
 			}
